@@ -219,7 +219,9 @@ static const range_t* range_of(uintptr_t a, size_t n) {
 }
 
 const char* vrt_name_of(const void* p) {
-  static __thread char tmp[64];
+  static __thread char tmps[8][64];
+  static __thread unsigned tmpi;
+  char* tmp = tmps[tmpi++ & 7]; /* rotating buffers: several results may be alive in one format call */
   if (!p) return "null";
   uintptr_t a = (uintptr_t)p;
   for (int i = g_nobj - 1; i >= 0; i--) {
@@ -229,16 +231,16 @@ const char* vrt_name_of(const void* p) {
     if (g_fld[i].addr == a && g_fld[i].dec != VD_CUSTOM && a != g_obj[g_fld[i].obj].base) return g_fld[i].key;
   for (int i = g_nobj - 1; i >= 0; i--) {
     if (a > g_obj[i].base && a < g_obj[i].base + g_obj[i].size) {
-      snprintf(tmp, sizeof tmp, "%s+%lu", g_obj[i].name, (unsigned long)(a - g_obj[i].base));
+      snprintf(tmp, 64, "%s+%lu", g_obj[i].name, (unsigned long)(a - g_obj[i].base));
       return tmp;
     }
   }
   if (a < 4096) {
-    snprintf(tmp, sizeof tmp, "#%lu", (unsigned long)a);
+    snprintf(tmp, 64, "#%lu", (unsigned long)a);
     return tmp;
   }
   if (a >= (uintptr_t)-4096) {
-    snprintf(tmp, sizeof tmp, "#-%lu", (unsigned long)(-a));
+    snprintf(tmp, 64, "#-%lu", (unsigned long)(-a));
     return tmp;
   }
   return "unk";
@@ -431,7 +433,9 @@ static int pick(vthread_t* cur) {
   if (g_replay && g_ireplay < g_nreplay) {
     int p = g_replay[g_ireplay++];
     if (p <= -1 && p > -100) return p; /* env action */
-    if (p >= 0 && p < g_nthr && g_thr[p].alive && g_thr[p].started) return p;
+    if (p >= 0 && p < g_nthr && g_thr[p].alive && g_thr[p].started &&
+        !(g_thr[p].wait_for >= 0 && g_thr[g_thr[p].wait_for].alive))
+      return p;
     /* infeasible directive: fall through to default policy */
   }
   /* env actions */
@@ -633,6 +637,15 @@ static int point(const char* k, const void* addrp, size_t size, int iswrite, int
     s->yield_epoch = g_epoch;
   }
   sched(s);
+  if (addr) {
+    /* while this thread was parked the object may have been reclaimed: the access it is
+       about to perform is then the use-after-free that matters */
+    const range_t* r2 = range_of(addr, size);
+    if (r2 && r2->fld < 0) {
+      dead_access(s, r2, pc, k);
+      fldidx = -1;
+    }
+  }
   open_step(s, k, addr, pc, mo, fldidx >= 0 || !addr || in_any_object(addr), fldidx);
   if (iswrite && fldidx < 0 && addr) {
     s->uw_addr = addr;
